@@ -83,6 +83,14 @@ def snapshot_location(name, tag):
 
 
 # ---------------------------------------------------------------- (a) reference reader
+def derive_user_key(key):
+    kdf = key['kdf']
+    if kdf['name'] == 'scrypt':
+        return Scrypt(salt=key['kdf_params'], length=kdf['length'], n=kdf['n'], r=kdf['r'], p=kdf['p']).derive(PW)
+    # blake2b as the user KDF: keyed with the password, salted with kdf_params, empty context
+    return hashlib.blake2b(b'', key=PW, salt=key['kdf_params'], digest_size=kdf['length']).digest()
+
+
 def reference_read(repo, key_bytes, problems):
     config = loads((repo / 'config').read_bytes())
     H = hasher(config['hashing'])
@@ -91,7 +99,7 @@ def reference_read(repo, key_bytes, problems):
         ciph = config['encryption']['cipher']
         key = loads(key_bytes)
         kdf = key['kdf']
-        user_key = Scrypt(salt=key['kdf_params'], length=kdf['length'], n=kdf['n'], r=kdf['r'], p=kdf['p']).derive(PW)
+        user_key = derive_user_key(key)
         private = loads(dec(ciph, key['private'], user_key))
         sk, ss, sl = private['shared_key'], private['shared_kdf_params'], private['shared_kdf']['length']
         mk, ml = private['mac_params'], private['mac']['length']
@@ -333,10 +341,12 @@ def main():
         {'encryption': None, 'chunking': {'min_length': 8, 'max_length': 64}},
         {'encryption': {'kdf': dict(fast), 'cipher': {'name': 'chacha20_poly1305'}}, 'hashing': {'name': 'sha2', 'bits': 256}, 'chunking': {'min_length': 4, 'max_length': 16}},
         {'encryption': {'kdf': dict(fast), 'cipher': {'name': 'aes_gcm', 'key_bits': 128}}, 'hashing': {'name': 'blake2b', 'length': 32}, 'chunking': {'min_length': 16, 'max_length': 48}},
+        {'encryption': {'kdf': {'name': 'blake2b'}}, 'hashing': {'name': 'sha3', 'bits': 256}, 'chunking': {'min_length': 8, 'max_length': 64}},
         {'encryption': None, 'hashing': {'name': 'sha3', 'bits': 384}, 'chunking': {'min_length': 1, 'max_length': 12}},
     ]
     if prop == 'C05':
         configs = [c for c in configs if c['encryption'] is not None]
+        configs.sort(key=lambda c: 0 if c['encryption']['kdf'].get('name') == 'blake2b' else 1)      # the non-default user KDF is part of the quick tier
     for ci, settings in enumerate(configs if tier == 'thorough' else configs[:3]):
         files_spec = {'secret-name.txt': b'TOP-SECRET-CONTENT-' + rnd.randbytes(40), 'sub/b.bin': rnd.randbytes(300), 'empty': b'',
                       'dup.bin': b'hello replicat\n' * 20, 'sub/dup2.bin': b'hello replicat\n' * 20, 'one': b'x'}
@@ -355,6 +365,13 @@ def main():
                     markers = [('file content', files_spec['secret-name.txt']), ('file name', b'secret-name.txt'), ('note', b'a-very-private-note'),
                                ('content digest of a file', H(files_spec['sub/b.bin'])), ('chunk digest', snap.chunks[0]),
                                ('directory name', str(root).encode())]
+                    # key secrets: every byte string of the key's private section and the user key itself
+                    try:
+                        uk = derive_user_key(key)
+                        priv = loads(dec(loads((root / 'repo' / 'config').read_bytes())['encryption']['cipher'], key['private'], uk))
+                        markers += [('user key', uk)] + [(f'private {k}', v) for k, v in priv.items() if isinstance(v, (bytes, bytearray))]
+                    except Exception as e:
+                        problems.append({'problem': 'reference cannot open the private section', 'error': f'{type(e).__name__}: {e}'[:120]})
                     scan(root, kb, markers, problems)
                     asyncio.run(more_runs_then_nonces(root, kb, settings, problems, markers))
             except Exception as e:
@@ -375,13 +392,20 @@ def main():
 
                         async def go():
                             r = Repository(Local(root / 'repo'), concurrent=2, quiet=True, cache_directory=None)
-                            with lib.quiet():
+                            with lib.quiet() as (o, e):
                                 await r.unlock(password=PW, key=kb)
                                 await r.restore(path=root / 'out')
                                 await r.list_files()
+                                listing.append(o.getvalue())
                                 await r.list_snapshots()
                             await r.close()
+                        listing = []
                         asyncio.run(go())
+                        # the file listing shows the recorded modification time (1400000000.25 s = 2014-05-13 16:53:20 UTC), whichever
+                        # metadata format the snapshot carries
+                        rows = [l for l in (listing[0] if listing else '').splitlines() if any(os.path.basename(k) in l for k in files)]
+                        if len(rows) < len(files) or not all('2014-05-13 16:53:20' in l for l in rows):
+                            problems.append({'problem': 'list-files does not show the recorded modification time', 'rows': [l[:160] for l in rows[:2]], 'old_format': old})
                         for k, v in files.items():
                             rp = lib.restored_path(root / 'out', k)
                             if not rp.exists() or rp.read_bytes() != v:
